@@ -67,6 +67,13 @@ let () =
       Printf.printf "%d draws%s\n" k
         (String.concat "" (List.map (fun s -> " " ^ s) (try Hashtbl.find draws k with Not_found -> [])));
       match P.update_weather_from_distribution (z_of_int mr) (z_of_int mc) (z_of_int sr) (z_of_int sc) means ds with
-      | P.Ok vals -> Printf.printf "%d values%s\n" k (String.concat "" (List.map (fun q -> " " ^ q_text q) vals))
+      | P.Ok vals ->
+        Printf.printf "%d values%s\n" k (String.concat "" (List.map (fun q -> " " ^ q_text q) vals));
+        (* Environment::influence_*_at multiply by the coefficient of the cell *)
+        let four = P.Zpos (P.XO (P.XO P.XH)) in
+        let times4 q = { q with P.qnum = P.Z.mul q.P.qnum four } in
+        let quarter q = { q with P.qden = (match P.Z.mul (P.Zpos q.P.qden) four with P.Zpos p -> p | _ -> P.XH) } in
+        Printf.printf "%d applied%s\n" k
+          (String.concat "" (List.map (fun q -> " " ^ q_text (times4 q) ^ "," ^ q_text (quarter q)) vals))
       | P.Err e -> Printf.printf "%d err:%s\n" k (err_name e));
   close_in ic
